@@ -1123,6 +1123,206 @@ def options_part(res, r, tier):
                 id_session(r.choice(('plain', 'scalar', 'dup')), (rep, where), force=(where, v), plain=rep % 2 == 0)
 
 
+# --------------------------------------------------------------------------- states of every size
+#
+# "for any state size": the state is made large in every way a state can be large -- ONE long id, MANY short ids (wide),
+# long paths (deep chains), ids that JSON escapes to six bytes per character, ids that do not compress (the cookie itself
+# becomes large) -- and its JSON text is made to hit the sizes 2**k - 1, 2**k, 2**k + 1 exactly (k = 8 .. 21 quick,
+# .. 24 thorough): whatever buffer, limit or chunk length a layer has, the ladder crosses it.  Each state goes through the
+# library's encoder and decoder, through the library's decoder after an INDEPENDENT encoder (zlib at another level,
+# base64 from the standard library) and through the independent decoder after the library's encoder.  Then the tag itself:
+# trees whose ids are that long / whose nodes are that many, driven through the links the tag generated, checked by the
+# same set-of-paths reference as every other history.
+
+def indep_encode(state, level):
+    raw = zlib.compress(json.dumps(state).encode('utf-8'), level)
+    return base64.b64encode(raw).decode('ascii').rstrip('=').replace('+', '-')
+
+
+SIZE_FORMS = ('one_id', 'wide', 'deep', 'escaped', 'incompressible', 'clicked_path')
+
+
+def sized_state(r, form, target):
+    """a state of the given form whose JSON text (as json.dumps writes it) has exactly `target` bytes, or as near above
+    as the form allows; returns (state, size)"""
+    def size(st):
+        return len(json.dumps(st).encode('utf-8'))
+
+    def pad(build, unit=1):
+        # build(n) must grow by `unit` bytes per step of n
+        base = size(build(0))
+        n = max(0, (target - base + unit - 1) // unit)
+        st = build(n)
+        return st, size(st)
+    if form == 'one_id':
+        return pad(lambda n: [['root', [['k' * n, [['c']]]]]])
+    if form == 'clicked_path':      # what a tree-e / tree-c value carries: a flat list of ids
+        return pad(lambda n: ['root', 'f' * n, 'c'])
+    if form == 'escaped':           # json writes \uXXXX: six bytes per character
+        ch = r.choice(['\xe9', '中', '￿', '\x00'])
+        return pad(lambda n: [['root', [[ch * n, []], ['z', []]]]], 6)
+    if form == 'incompressible':
+        letters = 'abcdefghijklmnopqrstuvwxyzABCDEFGHIJKLMNOPQRSTUVWXYZ0123456789-_.~'
+        body = ''.join(r.choice(letters) for _ in range(max(0, target - 40)))
+        return pad(lambda n: [['root', [[body + 'p' * n, []], ['z']]]])
+    if form == 'wide':              # many expanded siblings with short ids
+        per = size([['n000000', []]]) - 2 + 2       # entry + ', '
+        count = max(1, (target - 40) // per)
+        kids = [['n%06d' % i, []] for i in range(count)]
+        return pad(lambda n: [['root', kids + [['p' * n, []]]]])
+    if form == 'deep':              # a chain of expanded nodes (bounded depth: JSON nesting), the ids share the size
+        depth = r.choice((3, 8, 20, 60))
+        each = max(1, (target - 40) // depth)
+
+        def build(n):
+            st = [['leaf' + 'p' * n, []]]
+            for d in range(depth):
+                st = [['d%d-' % d + 'y' * each, st]]
+            return [['root', st]]
+        return pad(build)
+    raise ValueError(form)
+
+
+def size_codec_part(res, r, tier):
+    import TreeDisplay.TreeTag as TT
+    top = 21 if tier == 'quick' else 24
+    ladder = [2 ** k + d for k in range(8, top + 1) for d in (-1, 0, 1)]
+    cases = [('one_id', t) for t in ladder]
+    for form in SIZE_FORMS[1:]:
+        cap = 2 ** 20 + 1 if (form == 'incompressible' and tier == 'quick') else 2 ** top + 1
+        own = [t for t in ladder if t <= cap]
+        # quick: each other form at a seeded third of the ladder, always including the largest sizes
+        pick = own if tier != 'quick' else sorted(set(r.sample(own, len(own) // 3) + own[-2:]))
+        cases += [(form, t) for t in pick]
+    for form, target in cases:
+        state, sz = sized_state(r, form, target)
+        desc = {'sized_state': form, 'json_bytes': sz}
+        res.evaluations += 1
+        res.count('codec_sized_states')
+        res.count('codec_size_2^%02d' % (sz.bit_length() - 1))
+        res.nt(('sized', form, sz))
+
+        def fail(what):
+            res.oracle_fail.append({'case': desc, 'what': 'state of form %r whose JSON text has %d bytes: %s' % (form, sz, what)})
+        try:
+            c = limited(TT.encode_seq, state)
+            back = limited(TT.decode_seq, c)
+        except Exception as e:
+            fail('cookie round trip raised %s: %.200s' % (type(e).__name__, e))
+            continue
+        if not (isinstance(c, str) and re.fullmatch(r'[A-Za-z0-9/\-]*', c)):
+            fail('cookie value %.60r is not url-safe base64 text' % (c,))
+            continue
+        if back != state:
+            fail('decode_seq(encode_seq(state)) != state: decoded %.80r' % (back,))
+        try:
+            if indep_decode(c) != state:
+                fail('the cookie written does not describe the state (independent decoder)')
+        except Exception as e:
+            fail('the cookie written cannot be decoded independently: %s: %.200s' % (type(e).__name__, e))
+        for level in (r.choice((0, 1)), 9):     # level 0: stored, the cookie is longer than the state
+            if level == 0 and sz > 2 ** 20 and tier == 'quick':
+                level = 1
+            try:
+                back2 = limited(TT.decode_seq, indep_encode(state, level))
+            except Exception as e:
+                fail('decode_seq of an independently encoded cookie (zlib level %d) raised %s: %.200s' % (
+                    level, type(e).__name__, e))
+                continue
+            if back2 != state:
+                fail('decode_seq of an independently encoded cookie (zlib level %d) gave %.80r' % (level, back2))
+
+
+def size_tree_part(res, r, tier):
+    """browser sessions on trees whose expansion state is large; returns model requests for the correspondence"""
+    reqs = []
+    plans = []
+    tops = (15, 17, 18, 19, 20, 21) if tier == 'quick' else tuple(range(12, 24))
+    for k in tops:
+        total = 2 ** k + r.randint(1, 2 ** (k - 2))
+        plans.append((r.choice(('flat', 'chain', 'bushy')), total, r.random() < 0.3))
+    plans.append(('flat', 2 ** 18 + 2 ** 16, False))       # each shape at least once beyond 2**18
+    plans.append(('chain', 2 ** 19 + 7, False))
+    plans.append(('many', 2 ** 18 + 2 ** 17, False))        # thousands of expanded nodes with ordinary ids
+    if tier != 'quick':
+        plans.append(('many', 2 ** 21, False))
+    for shape_kind, total, escaped in plans:
+        if shape_kind == 'flat':
+            m = r.randint(2, 12)
+            shape = [[[]] for _ in range(m)]                # m folders with one child each
+        elif shape_kind == 'chain':
+            shape = []
+            for _ in range(r.randint(2, 10)):
+                shape = [shape, []]                         # a folder with a sub-folder and a leaf, nested
+        elif shape_kind == 'bushy':
+            def rs(depth_left, budget):
+                kids = []
+                while budget[0] > 0 and depth_left > 0 and r.random() < 0.65:
+                    budget[0] -= 1
+                    kids.append(rs(depth_left - 1, budget))
+                return kids
+            shape = rs(4, [r.randint(6, 16)]) or [[[]]]
+        else:
+            shape = [[[]] for _ in range(max(2, total // 110))]
+        folders = max(1, sum(1 for _ in _shape_folders(shape)))
+        if shape_kind == 'many':
+            idlen = 100
+        else:
+            idlen = max(1, total // folders // (6 if escaped else 1))
+        fill = r.choice(['\xe9', '中']) if escaped else r.choice('xyq')
+        names = lambda i, idlen=idlen, fill=fill: 'v%d-' % i + fill * idlen   # noqa
+        root = label(shape, names)
+        desc = {'large_ids': shape_kind, 'nodes': sum(1 for _ in all_nodes(root)), 'id_chars': idlen, 'id_fill': ascii(fill),
+                'shape': repr(shape) if shape_kind != 'many' else '%d folders with one child each' % len(shape)}
+        expand_first = [0.85]
+
+        def picker(linked, rows):
+            if not linked:
+                return None
+            c = r.random()
+            if c < 0.04:
+                return 'expand_all'
+            opens = [x for x in linked if x['kind'] == 'tree-e']
+            if opens and r.random() < expand_first[0]:
+                return r.choice(opens)
+            return r.choice(linked)
+        n0 = len(res.oracle_fail)
+        if shape_kind == 'many':
+            steps, start = 3, 'expand_all'
+        else:
+            steps, start = min(40, 2 * folders + 4), r.choice(('init', 'init', 'expand_all'))
+        req, snaps, idmap = run_history(res, root, picker, steps, start, r)
+        for f in res.oracle_fail[n0:]:      # the ids are megabytes: describe the case instead of printing it
+            clicks = f['case'].get('clicks') if isinstance(f.get('case'), dict) else None
+            f['case'] = dict(desc, clicks=len(clicks or ()))
+            f['what'] = '%.600s' % re.sub(r'(.)\1{11,}', lambda m: '%s{x%d}' % (m.group(1), len(m.group(0))), f['what'])
+        if snaps and snaps[-1][1]:
+            res.count('large_state_cookie_json_2^%02d' % _state_bits(snaps))
+        if req is not None and shape_kind != 'many':
+            reqs.append((req, snaps, idmap))
+        res.nt(('large_ids', shape_kind, total))
+        res.count('large_state_histories')
+    return reqs
+
+
+def _shape_folders(shape):
+    for k in shape:
+        if k:
+            yield k
+            yield from _shape_folders(k)
+
+
+def _state_bits(snaps):
+    best = 0
+    for _, cookie in snaps:
+        try:
+            s = cookie.replace('-', '+')
+            best = max(best, len(zlib.decompress(base64.b64decode(s + '=' * (-len(s) % 4)))))
+        except Exception:
+            pass
+    return max(best, 1).bit_length() - 1
+
+
 def repr_tree(node):
     return [node.nid, [repr_tree(k) for k in node.spec]]
 
@@ -1164,7 +1364,13 @@ def _run(res, tier, have_driver):
                 'like them; links and cookie are compared with the TYPE of every id); ids unique among siblings only '
                 '(children named like their parent, like the root, same names under every parent); falsy ids and '
                 'their twins (\'\', 0, None, False, 0.0, -0.0, 1, True, \' \', \'0\') forced at the root, below the root and '
-                'deeper.  Every compilation, rendering and codec call runs under a time limit of 10 s: no result = '
+                'deeper.  States of every size: codec states in six forms (one long id, many short ids, deep chains, '
+                'ids JSON escapes to six bytes a character, ids that do not compress, a clicked path) whose JSON text '
+                'has exactly 2**k - 1, 2**k, 2**k + 1 bytes for k = 8..21 (thorough ..24), through the library\'s '
+                'encoder + decoder, the library\'s decoder after an independent encoder (zlib level 0 / 1 / 9) and the '
+                'independent decoder; browser sessions on trees whose state grows to 2**15 .. 2**21 bytes (flat, '
+                'chained, bushy trees with ids of up to hundreds of thousands of characters, ASCII or escaped; thousands '
+                'of expanded nodes with ordinary ids), against the set-of-paths reference.  Every compilation, rendering and codec call runs under a time limit of 10 s: no result = '
                 'failure, three of them end the search.  Left out because the unchanged library '
                 'fails them (reported, see partial): prefix=, sort on equal keys, sort on a read-only sequence, a page '
                 'without sort after a page with sort on the container\'s own list, expand_all with refused items, bytes '
@@ -1242,6 +1448,10 @@ def _run(res, tier, have_driver):
         res.count('assume_children_histories')
     # the tag's options, on live application data rendered again and again (oracle only: outside the model)
     options_part(res, common.rng('C20/options'), tier)
+    # states of every size: the codec on a ladder of exact sizes in six forms, the tag on trees with large / many ids
+    rs = common.rng('C20/sizes')
+    size_codec_part(res, rs, tier)
+    reqs += size_tree_part(res, rs, tier)
     if len(reqs) > 5:
         res.sample({'model_request': reqs[5][0], 'impl_rows_after_last_click': reqs[5][1][-1][0]})
         res.sample({'model_request': reqs[-1][0]})
